@@ -272,10 +272,12 @@ Record nrec := mkN {
 Definition dchar (n : nat) : ascii := ascii_of_nat (48 + n).
 Definition two (n : nat) : string := String (dchar (n / 10)) (String (dchar (n mod 10)) EmptyString).
 Definition four (n : nat) : string := two (n / 100) ++ two (n mod 100).
-Definition pad2 (n : nat) : string := if (n <? 10)%nat then String " " (String (dchar n) EmptyString) else two n.
-(* F5.1 *)
-Definition f51 (t : nat) : string := rjust 5 ((if (t / 10 <? 10)%nat then String (dchar (t / 10)) EmptyString else two (t / 10))
-                                               ++ "." ++ String (dchar (t mod 10)) EmptyString).
+(* I2 (blank padded) and F5.1 for values below 100 *)
+Definition pad2 (n : nat) : string :=
+  String (if (n <? 10)%nat then " "%char else dchar (n / 10)) (String (dchar (n mod 10)) EmptyString).
+Definition f51 (t : nat) : string :=
+  String " " (String (if (t <? 100)%nat then " "%char else dchar (t / 100))
+    (String (dchar (t / 10 mod 10)) (String "." (String (dchar (t mod 10)) EmptyString)))).
 
 Definition render_field (o : option num) : string :=
   match o with Some n => render_num fw n | None => spaces fw end.
@@ -502,6 +504,9 @@ Definition prec_eqb (a b : prec) : bool :=
   && Qeq_bool (dec_toQ (p_sec a)) (dec_toQ (p_sec b))
   && all2 (fun x y => String.eqb (fst x) (fst y) && dec_eqb (snd x) (snd y)) (p_vals a) (p_vals b).
 
+Definition time_cols_eqb (a b : cols) : bool :=
+  all2 (fun x y : string * list Q => String.eqb (fst x) (fst y) && all2 Qeq_bool (snd x) (snd y)) (c_time a) (c_time b).
+
 Definition has_lower_d (r : nrec) : bool :=
   existsb (fun o => match o with Some n => (n_ec n =? "d")%char | None => false end) (r_nums r).
 Definition blank_idx (v : version) (r : nrec) : bool :=
@@ -524,7 +529,8 @@ Record case := mkCase {
 (* verdicts:
      0  the implementation's output is the specification's
      1  unexplained difference
-     2  equals the model with q_elif            3  with q_sow           4  with q_elif + q_sow
+     2  equals the model with q_elif (and the seconds-of-week arithmetic, harmless on this file)
+     3  equals the model with q_sow            4  with q_elif + q_sow, both visible
      5  ValueError where the model with q_lower_d predicts it (a lower-case d exponent in the file)
      6  the independent writer's text differs from the format's render_body (harness defect)
      7  IndexError where the model with q_blank_idx predicts it (blank clock drift / drift rate)
@@ -545,14 +551,17 @@ Definition check_file (k : case) : Z :=
       if negb (match k_ds k with Some o2 => lens_equal o2 | None => true end) then 10%Z else
       let m := fun q => let c := build_cols v q (k_hdr k) (k_sys2 k) ps in
                         obs_match c o && match k_ds k with Some o2 => obs_match c o2 | None => true end in
+      let bc := fun q => build_cols v q (k_hdr k) (k_sys2 k) ps in
       if m spec_q then
         match parse_body v spec_q (k_sys2 k) (k_table k) (k_lines k) with
         | Some ps' => if all2 prec_eqb ps ps' then 0%Z else 9%Z
         | None => 9%Z
         end
-      else if m (mkQ false false true false false) then 2%Z
       else if m (mkQ false false false true false) then 3%Z
-      else if m (mkQ false false true true false) then 4%Z
+      else if m (mkQ false false true true false) then
+        (* the code's arithmetic on seconds of week is harmless on this file?  then it is the if/elif alone *)
+        (if time_cols_eqb (bc (mkQ false false false true false)) (bc spec_q) then 2%Z else 4%Z)
+      else if m (mkQ false false true false false) then 2%Z
       else if m (mkQ false false false false true) || m (mkQ false false true false true)
               || m (mkQ false false false true true) || m (mkQ false false true true true) then 8%Z
       else 1%Z
